@@ -40,8 +40,8 @@ CAT_KINDS_R = ["obj", "obj", "str", "str_sp", "str_comma", "list", "tuple", "arr
 CAT_KINDS_L = ["str", "str_sp", "list", "tuple", "list_bool", "str_comma"]
 BAD_NEW = ["two", "neg", "half", "str2", "stra", "2d", "none", "complex", "nan", "3d", "str2d", "strempty",
            "mixed_bad", "big", "strneg", "strfloat", "row2d", "col2d", "nest3d", "tuple_of_list", "ones_1x4", "arr_1x1",
-           "frac_trunc", "wrap256", "neg_half", "inf", "inf_scalar", "neginf", "inf32"]
-BAD_CAT = ["two", "neg", "half", "2d", "str2", "stra", "scalar_obj", "dict", "none"]
+           "frac_trunc", "wrap256", "neg_half", "inf", "inf_scalar", "neginf", "inf32", "str_nl", "str_tab", "str_cr"]
+BAD_CAT = ["two", "neg", "half", "2d", "str2", "stra", "scalar_obj", "dict", "none", "str_nl", "str_tab"]
 
 
 def tasks(tier, master):
@@ -204,6 +204,7 @@ def _bad_value(what):
         "tuple_of_list": ([1, 0, 1],), "ones_1x4": np.ones((1, 4)), "arr_1x1": np.zeros((1, 1), dtype=int),
         "frac_trunc": [0, 1.9, 1], "wrap256": [0, 256, 1], "neg_half": [-0.5, 1], "inf": [0, float("inf"), 1],
         "inf_scalar": float("inf"), "neginf": [float("-inf")], "inf32": np.array([np.inf, 1], dtype=np.float32),
+        "str_nl": "000011110000\n", "str_tab": "0101\t0", "str_cr": "01\r\n10", "str_plus": "+1 0 1", "str_dot": "1.0 0.0",
     }[what]
 
 
@@ -450,6 +451,7 @@ class Machine:
         if res.data.tolist() != exp:
             raise Violation("C15/value", f"{what}: a[{key}] got {res.data.tolist()[:20]} expected {exp[:20]}", what)
         self._no_alias(res, what)
+        self._laws(res, what)
         self._push(res, exp)
         self.rec.ok_ops += 1
         self.rec.sig("index", form, _lenclass(len(exp)), "ok")
